@@ -34,7 +34,19 @@ def main(argv=None):
         mod = importlib.import_module('vp.props.%s' % pid.lower())
         from . import srcdb
         db = srcdb.load(REPO)
+        st = db.norm_stats
+        if st is not None:
+            report.note('normal form (E0)', '%d helper call(s) inlined%s, %d '
+                        'module constant use(s), %d stable alias(es) and %d '
+                        'single-use temporaries substituted' % (
+                            st['inlined_calls'] + st['inlined_generators'],
+                            (' (' + ', '.join(st['helpers']) + ')')
+                            if st['helpers'] else '', st['constants'],
+                            st['copies'], st['temps']))
         mod.run(report, db, args.tier)
+        from . import pathsum
+        for fn, k in sorted(pathsum.RUNS.items()):
+            report.note('path summaries (E11)', '%s: %d' % (fn, k))
         if only is not None:
             report.violations = [f for f in report.violations
                                  if f.key == only]
